@@ -91,6 +91,29 @@ class EventSource:
             raise CleanupError('cannot unsubscribe')
 
 
+class EventIterable:
+    """An async iterable that is not its own iterator (a channel / topic object: every __aiter__ call hands out the
+    subscription's iterator; only that iterator can be closed)."""
+
+    def __init__(self, source):
+        self.source = source
+        self.aiter_calls = 0
+
+    def __aiter__(self):
+        self.aiter_calls += 1
+        if self.aiter_calls > 1:
+            return _Consumed()      # a single-consumer channel: the events went to the first iterator
+        return self.source
+
+
+class _Consumed:
+    def __aiter__(self):
+        return self
+
+    async def __anext__(self):
+        raise StopAsyncIteration
+
+
 def event_value_fn(schema, seed, ev, fault):
     base = make_value(schema, h(seed, 'event', ev) % (2**31), fault)
 
@@ -149,6 +172,7 @@ def run_stream(schema, doc, variables, seed, scenario, sched_seed, p_async, poli
     hz.seed_base = seed
     source = EventSource(sched, scenario['payloads'], scenario.get('fail_at'), scenario.get('aclose_fails', False))
     src_ref['source'] = source
+    handed_out = EventIterable(source) if scenario.get('separate_iterator') else source
     out = {'kind': None, 'responses': [], 'snapshots': [], 'raised': None, 'ended': False, 'raised_after': None, 'result': None, 'closed_by_consumer': False}
     creation = scenario.get('creation')
 
@@ -168,9 +192,9 @@ def run_stream(schema, doc, variables, seed, scenario, sched_seed, p_async, poli
                     raise SourceError('cannot create source (async)')
                 if creation == 'await-not-iterable':
                     return 42
-                return source
+                return handed_out
             return later()
-        return source
+        return handed_out
 
     async def main():
         try:
@@ -377,6 +401,9 @@ def check_case(ctx, seed, k):
         scenario['close_after'] = rng.randint(0, n)
     elif kind < 0.6:
         scenario['creation'] = rng.choice(['raise', 'return-error', 'not-iterable', 'none', 'await-raise', 'await-not-iterable', 'await-ok'])
+    if rng.random() < 0.25:
+        scenario['separate_iterator'] = True
+        ctx.count("scenarios_with_a_source_that_is_not_its_own_iterator")
     if 'creation' not in scenario and rng.random() < 0.3:
         scenario['aclose_fails'] = True
         ctx.count("scenarios_with_failing_source_cleanup")
